@@ -43,3 +43,48 @@ let run (id : string) (ops : string list) (out : out_channel) =
     | _ -> failwith ("ldot1q op: " ^ op)) ops
 
 let registered = Registry.register "Ldot1q" run
+
+(* ---- extraction cross-check inside Coq (see c18.ml): every model call this glue makes for the ops of a
+   sampled case (decode with what the glue reads from the layer, serialize), restated as a Gallina term
+   and recomputed by vm_compute, must give the value the extracted code computed here. *)
+let coq_layer (l : dot1q) = Printf.sprintf "(mkQ %s %s %s %s %s %s)" (coq_zlist l.q_contents) (coq_zlist l.q_payload) (coq_z l.q_prio) (coq_bool l.q_dei) (coq_z l.q_vid) (coq_z l.q_type)
+let coq_junk d = Printf.sprintf "(repeat %s 8%%nat)" (coq_z (z_of_int (if d = 1 then 0xAA else 0)))
+
+let to_coq (idx : int) (ops : string list) (out : out_channel) =
+  let n = ref 0 in
+  let name () = incr n; Printf.sprintf "sample_%d_%d" idx !n in
+  let small h = String.length h <= 300 in
+  let ex_dec (call : string) (((l, o), tr) : (dot1q * unit Base.outcome) * bool) =
+    coq_example_named out (name ()) (Printf.sprintf "(let r := %s in (r, q_next (fst (fst r)), q_render_panics (fst (fst r))))" call)
+      (Printf.sprintf "(%s, %s, %s, %s, %s)" (coq_layer l) (coq_outcome coq_unit o) (coq_bool tr) (coq_z (q_next l)) (coq_bool (q_render_panics l))) in
+  let ex_ser (l0 : dot1q) (p : BinNums.coq_Z list) (f : bool) (c : bool) (d : int) =
+    let r = q_serialize l0 p f c (junk_of d) in
+    coq_example_named out (name ()) (Printf.sprintf "q_serialize %s %s %s %s %s" (coq_layer l0) (coq_zlist p) (coq_bool f) (coq_bool c) (coq_junk d))
+      (coq_pair (coq_outcome coq_zlist) coq_layer r); r in
+  let dec_fresh b = ex_dec ("q_decode_into q_fresh " ^ coq_zlist b) (q_decode_into q_fresh b) in
+  Stdlib.List.iter (fun op ->
+    let k = String.index op ':' in
+    let nm = String.sub op 0 k and args = split_on ',' (String.sub op (k + 1) (String.length op - k - 1)) in
+    if !n < 6 then
+    match nm, args with
+    | "dec", [h] when small h -> dec_fresh (bytes_of_hex h)
+    | "dec2", [a; b] when small a && small b ->
+      let a = bytes_of_hex a and b = bytes_of_hex b in
+      ex_dec (Printf.sprintf "q_dec2 %s %s" (coq_zlist a) (coq_zlist b)) (q_dec2 a b)
+    | ("ser" | "new"), [h; fcd; p] when small h && small p ->
+      let l0 = if nm = "ser" then (let ((l, _), _) = q_decode_into q_fresh (bytes_of_hex h) in l) else of_spec h in
+      ignore (ex_ser l0 (bytes_of_hex p) (fcd.[0] = '1') (fcd.[1] = '1') (Char.code fcd.[2] - 48))
+    | ("rt" | "rtn"), [h; p] when small h && small p ->
+      let first = if nm = "rt" then begin
+          let b = bytes_of_hex h in
+          let ((l, o), _) = q_decode_into q_fresh b in
+          dec_fresh b; (match o with Base.Ok _ -> Some l | _ -> None) end
+        else Some (of_spec h) in
+      (match first with
+       | Some l ->
+         (match ex_ser l (bytes_of_hex p) true true 0 with
+          | (Base.Ok b2, _) -> dec_fresh b2
+          | _ -> ())
+       | None -> ())
+    | _ -> ()) ops
+let registered_coq = Registry.register_coq "Ldot1q" ("From GP Require Import Base Ldot1qModel.\n", to_coq)
